@@ -22,7 +22,10 @@ Inductive c08_case :=
 (* binary operation between two expressions over operands on one mesh, where the meshes of the two
    sides may differ in position only *)
 | CBinGeo (env : list (list nat * list bool)) (nd : nat) (b : binop) (e1 e2 : expr)
-          (obs : option (list nat * list bool)).
+          (obs : option (list nat * list bool))
+(* two observations of one case (e.g. the same operations before and after in-place writes into the
+   operands' masks): both must agree with the model *)
+| CBoth (c1 c2 : c08_case).
 
 Definition optnat_eqb (a b : option nat) : bool :=
   match a, b with
@@ -44,7 +47,7 @@ Definition norm_ok (exact : bool) (obs : bool) (v : list Q) : bool :=
     else if Qltb n2 (lo * lo) then negb obs
     else true.
 
-Definition check_C08 (c : c08_case) : bool :=
+Fixpoint check_C08 (c : c08_case) : bool :=
   match c with
   | CExpr env e obs obs_shares obs_touched =>
       let menv := mk_env env in
@@ -87,4 +90,5 @@ Definition check_C08 (c : c08_case) : bool :=
       | Some (Err _), None => true
       | _, _ => false
       end
+  | CBoth c1 c2 => check_C08 c1 && check_C08 c2
   end.
